@@ -34,7 +34,7 @@ BOUNDS = {
 }
 OUTSIDE = 'third-party subclasses of InnerEnv; representations themselves (C15/C16); gym layer (C20)'
 ASSUMPTIONS = ['the observation function used here wraps the real fully_transparent/partially_occluded function and additionally draws one number from the rng it is given, so that a recomputation is observable as a draw']
-STUBS = ['LazyRows', 'LazyAgent', 'SymRng', 'recording stand-ins for StateRepresentation/ObservationRepresentation (OuterEnv only)']
+STUBS = ['LazyRows', 'LazyAgent', 'SymRng', 'AdversarialId (the builtin id(), constrained only by its documented contract: unique among simultaneously existing objects)', 'recording stand-ins for StateRepresentation/ObservationRepresentation (OuterEnv only)']
 TIME_LIMIT = {'quick': 300, 'thorough': 1800}
 
 SMALL8 = [e for e in SIGMA_2C if e[0] in ('Floor', 'Wall', 'Exit(NONE)', 'Key(YELLOW)', 'Door(OPEN,YELLOW)', 'Door(LOCKED,YELLOW)', 'Door(CLOSED,YELLOW)', 'MovingObstacle')]
@@ -161,6 +161,95 @@ def mk(H, W, stochastic, op):
     return h
 
 
+class AdversarialId:
+    """stands for the builtin id(): its only documented contract is uniqueness among simultaneously existing objects, so the
+    identity of a dead object may be handed to a new one -- here always, as soon as one is free (weak references track liveness)"""
+
+    def __init__(self):
+        import builtins
+        import weakref
+        self._real, self._weakref = builtins.id, weakref
+        self.by_obj = {}   # real id -> (weakref, value)
+        self.free = []
+        self.next = 1 << 40
+
+    def __call__(self, obj):
+        for rid, (wr, val) in list(self.by_obj.items()):
+            if wr() is None:
+                del self.by_obj[rid]
+                self.free.append(val)
+        rid = self._real(obj)
+        if rid in self.by_obj and self.by_obj[rid][0]() is obj:
+            return self.by_obj[rid][1]
+        try:
+            wr = self._weakref.ref(obj)
+        except TypeError:
+            return rid
+        if self.free:
+            val = self.free.pop()
+        else:
+            val, self.next = self.next, self.next + 16
+        self.by_obj[rid] = (wr, val)
+        return val
+
+
+def mk_id_reuse(H, W):
+    """a memo must not be keyed by something that a later state can share with a dead one (e.g. id()): read, step twice
+    without reading and without anyone keeping the old states alive, read again"""
+    import weakref
+
+    import gym_gridverse.envs.gridworld as GW
+    import gym_gridverse.envs.inner_env as IE
+    import gym_gridverse.outer_env as OE
+
+    def h(sx):
+        reset_gv_debug(False)
+        calls = {'n': 0, 'last': None}
+        env = make_env(H, W, False, dict(obs_calls=0, obs_states=[], obs_tags=[], reset_calls=0, reset_rngs=[], reset_state=None))
+        real_obs = env._observation_function
+
+        def obs_f(state, *, rng=None):  # counts, and remembers the state only weakly
+            calls['n'] += 1
+            calls['last'] = weakref.ref(state)
+            return OF.fully_transparent(state, area=env.observation_space.area, rng=rng)
+
+        env._observation_function = obs_f
+        env._rng = SymRng(sx)
+        adv = AdversarialId()
+        mods = (IE, GW, OE)
+        for m in mods:
+            m.id = adv
+        try:
+            from ..stubs import ORS
+            two = [e for e in SMALL8 if e[0] in ('Floor', 'Wall')]
+            S, world = lazy_state(sx, H, W, two, held_sigma=[], orientations=ORS[:2])
+            env._state = S
+            del S
+            env.observation
+            n_ops = int(sx.int('ops', 2, 3))
+            for i in range(n_ops):
+                op = sx.choice(f'op{i}', ['step', 'reset'])
+                if op == 'step':
+                    env.step(sx.choice(f'a{i}', [Action.TURN_LEFT, Action.MOVE_FORWARD, Action.ACTUATE]))
+                else:
+                    fresh, _ = lazy_state(sx, H, W, two[:1], name=f'r{i}', held_sigma=[], agent=f'r{i}', held=f'rheld{i}', orientations=ORS[:1])
+                    env._reset_function = (lambda st: (lambda *, rng=None: st))(fresh)
+                    del fresh
+                    env.reset()
+                    env._reset_function = None
+            before = calls['n']
+            ob = env.observation
+            sx.cover('read-after-unobserved-operations')
+            sx.check(calls['n'] == before + 1 and calls['last']() is env._state, 'observation-recomputed-from-the-current-state',
+                     f'observation function called {calls["n"] - before} times at the read')
+            sx.check(env.observation is ob and calls['n'] == before + 1, 'then-memoised')
+        finally:
+            for m in mods:
+                if 'id' in m.__dict__:
+                    del m.id
+    return h
+
+
 def h_before_reset(sx):
     counter = dict(obs_calls=0, obs_states=[], obs_tags=[], reset_calls=0, reset_rngs=[], reset_state=None)
     env = make_env(2, 2, False, counter)
@@ -249,6 +338,8 @@ def h_outer(sx):
 def obligations(tier):
     q = tier == 'quick'
     obs = [Obligation('before-first-reset', h_before_reset), Obligation('outer-env-delegation', h_outer)]
+    for (H, W) in [(1, 2), (2, 2)]:
+        obs.append(Obligation(f'unobserved-operations-then-read-{H}x{W}', mk_id_reuse(H, W), dict(H=H, W=W, id='adversarial builtin id (dead identities are reused at once)')))
     det = [(1, 2), (2, 2)] if q else [(1, 2), (2, 2), (2, 3), (3, 3)]
     sto = [(1, 3)] if q else [(1, 3), (2, 2)]
     for op in OPS:
